@@ -223,6 +223,7 @@ import (
 	"sort"
 	"strings"
 	"testing"
+	"time"
 )
 
 type vReplayCase struct {
@@ -234,11 +235,25 @@ type vReplayCase struct {
 	} ` + "`json:\"tape\"`" + `
 }
 
-func vRunCase(c vReplayCase) (outcome string) {
-	fn := vHarnesses[c.Harness]
-	if fn == nil {
+// vRunCase runs one case on its own goroutine: a harness that does not come
+// back (the code under test has deadlocked the caller) is reported as
+// "blocked" instead of hanging the whole replay.
+func vRunCase(c vReplayCase) string {
+	if vHarnesses[c.Harness] == nil {
 		return "noharness"
 	}
+	res := make(chan string, 1)
+	go func() { res <- vRunCase1(c) }()
+	select {
+	case o := <-res:
+		return o
+	case <-time.After(20 * time.Second):
+		return "blocked"
+	}
+}
+
+func vRunCase1(c vReplayCase) (outcome string) {
+	fn := vHarnesses[c.Harness]
 	vTape = vTape[:0]
 	for _, e := range c.Tape {
 		vTape = append(vTape, e.V)
@@ -246,6 +261,7 @@ func vRunCase(c vReplayCase) (outcome string) {
 	vPos = 0
 	vTierN = c.Tier
 	vCovered = map[string]bool{}
+	vGoBase = vPkgGoroutines()
 	defer func() {
 		if r := recover(); r != nil {
 			switch x := r.(type) {
